@@ -5,6 +5,7 @@ import JaxVerif.Spec.Trees
 import JaxVerif.Generated.Skeleton
 import JaxVerif.Lemmas.Treepath
 import JaxVerif.Source.Trees
+import JaxVerif.Source.Storage
 
 namespace JV
 
@@ -85,5 +86,21 @@ theorem C16_source_label (env : TEnv) (ac : Catch) (hf : FlattenKept env.leafChe
       some (if env.bare then (st, .T)
             else pytreeInstancecheck (goodSkel ac) env.leafCheck env.leafAny env.S env.x st) :=
   source_tree_instancecheck env ac hf st
+
+/-- the label cell itself, from the source read today (`clear_` / `set_` / `get_treepath_memo` of `_storage.py`): the label
+    stored for a leaf is built from THIS leaf index and THIS structure name, a second label on top of one is an
+    AnnotationError, reading without one is an AnnotationError (the two errors of the property), for every content of the
+    thread's cell including a thread that never touched it -/
+theorem C16_source_label_cell (ctx : KCtx) (cell : Option KVal) (h : TreepathCellOk cell) :
+    runCellFn Generated.treepathFuns ctx Generated.clearTreepathCode cell = some (some .none, .inl .none) ∧
+    runCellFn Generated.treepathFuns ctx Generated.setTreepathCode cell
+      = (match cell with
+         | some (.label _ _) => some (cell, .inr ())
+         | _ => some (some (.label ctx.index ctx.sname), .inl .none)) ∧
+    runCellFn Generated.treepathFuns ctx Generated.getTreepathCode cell
+      = (match cell with
+         | some (.label i S) => some (cell, .inl (.label i S))
+         | _ => some (cell, .inr ())) :=
+  source_cell_treepath ctx cell h
 
 end JV
